@@ -19,7 +19,8 @@
    This is the algorithm after the hygiene repairs (called-lambda parameters are given fresh names
    before they are bound; an un-called lambda whose parameter is in scope or mentioned by a
    pending definition is alpha-renamed; the lambda another lambda is moved into is freshened;
-   Python's argument binding for called lambdas; literal projection only for constant selectors). *)
+   Python's argument binding for called lambdas, none for starred arguments; literal projection only for constant
+   selectors). *)
 From FA.Base Require Import PyAst Value Traverse Names.
 From FA.Gen Require Import TablesSimp.
 
@@ -211,6 +212,10 @@ Definition bind_lambda_call (ps : list string) (args : list expr)
            else sequence (map (fun p => assoc_expr p given) ps)
        end.
 
+(* a starred call argument [*xs] (an [Other] node of class Starred): a called lambda that has one is left as a call *)
+Definition is_starred (e : expr) : bool :=
+  match e with Other cls _ _ => String.eqb cls "Starred;value=n" | _ => false end.
+
 Definition is_call_handler (n : string) : bool := existsb (String.eqb n) simp_call_handlers.
 
 (* a stateful map over a list, left to right *)
@@ -323,7 +328,7 @@ Fixpoint simp (fuel : nat) (st : stack) (bound : list string) (c : nat) (e : exp
         end
 
     | Call (Lambda ps body) args kwn kwv =>
-        match bind_lambda_call ps args kwn kwv with
+        match (if existsb is_starred args then None else bind_lambda_call ps args kwn kwv) with
         | None => generic c e
         | Some given =>
             (* beta-reduction: arguments visited in parameter order, then fresh parameter names *)
